@@ -74,6 +74,31 @@ fn run_case(c: Case, w: &mut Worker, tool: Option<&RefTool>) {
             c.replay(),
         );
     }
+    // the derivation must not depend on what the caller's aux buffer held before: a recycled buffer
+    // whose marker byte was reset to 0 ("no aux data") with another key's bytes behind it, and a
+    // buffer of junk that claims to be in use (its MAC cannot match, so it has to be ignored)
+    if c.levels[0].h <= 10 {
+        for (class, first) in [("recycled_marker0", 0u8), ("junk_in_use", 0xa5u8)] {
+            let mut bytes: Vec<u8> = (0..2048usize).map(|i| (i as u8).wrapping_mul(167) | 1).collect();
+            bytes[0] = first;
+            let mut aux = libcall::AuxBuf::new(bytes);
+            match libcall::keygen(c.alg, &c.levels, &c.seed, Some(&mut aux)) {
+                Out::Ok(k2) => {
+                    r.count("keygens_into_dirty_aux", 1);
+                    if k2.vk != want_vk || k2.sk != want_sk {
+                        r.violation(
+                            &key(&c, &format!("dirty_aux:{class}")),
+                            &format!("keygen into a dirty aux buffer ({class}) deviates from the derivation: public key {} model {}", model::json::hex(&k2.vk), model::json::hex(&want_vk)),
+                            c.replay(),
+                        );
+                    }
+                }
+                other => {
+                    r.violation(&key(&c, &format!("dirty_aux_keygen_failed:{class}")), &format!("keygen into a dirty aux buffer ({class}) returned {}", other.describe()), c.replay());
+                }
+            }
+        }
+    }
     r.distinct(&format!("{}|{}|{}", c.alg.name(), model::params::levels_to_string(&c.levels), c.seed_class));
     if r.samples.len() < 6 {
         r.sample(
